@@ -136,11 +136,11 @@ PLAN['C04'] = {
     'technique': 'contract-based deductive verification (Verus) of VmData::simplify/VmWorkspace on real text, through the proved contract of RegisterAllocator::op; Kani full-domain harnesses for the trace hypothesis; bounded native contract runner for value preservation and JIT traces',
     'level_text': 'S1 proved unbounded: for every well-formed parent tape, every trace of the right length without Unknown, every register budget M in 3..=255 and any previous workspace contents, simplify cannot panic (all 26 unwrap/assert/panic sites, 11 overflow and 8 index obligations, and the allocator preconditions call by call) and preserves vars and the output count; the hypothesis `a decided choice is valid at every point of the box` is proved for all f32/intervals by Kani. S3 proved unbounded at the SSA level: whenever the trace is valid for the parent run (the value of every decided clause is bit for bit that of the selected operand), the simplified SSA tape yields exactly the outputs of the parent from any initial environment (simulation invariant `ssim`, one semantic transition lemma per kind of arm, all 51 arms). The bounded contract simplify_sem additionally runs real traces from all four tracing evaluators through simplify and compares values natively.',
     'level_note': 'Trusted: Verus+Z3, Kani/CBMC, extractor rewrite rules (R-orpat, R-iter, R-revnext, R-constdefault, ...). Assumed: parent tape is strict SSA (established by SsaTape::new: bounded leg flatten) and choice_count equals the number of choice clauses. Proved in unit vm: the VM tracing evaluators record exactly the per-clause choice of each clause, in tape order. Not mechanised: the lifting of the per-clause validity (Kani) through the proved run equation to the SSA-level hypothesis tp (needs the order-preservation of RegTape::new, which is not exported by unit alloc); bounded: simplify_sem runs real traces end to end. JIT traces bounded, (the register tape of the simplified function is proved to compute its SSA tape for the new budget M, from any initial register/memory contents, by the same simulation argument as RegTape::new).',
-    'legs': [leg_verus('alloc'), leg_verus('simplify'), leg_verus('vm'), leg_kani('leaf'), leg_bounded('simplify_sem'), leg_bounded('jit_trace')],
+    'legs': [leg_verus('alloc'), leg_verus('simplify'), leg_verus('vm'), leg_kani('leaf'), leg_bounded('simplify_sem'), leg_bounded('jit_trace'), leg_bounded('render_handle')],
     'explanation': 'Loop invariant sinv (P1, COV, INJ, P3, Q of DESIGN.md B.3) over (bind, count, allocator allocations, ops, k) plus the LEN equation ops_out.len + live == outputs + count; one transition lemma per kind of arm (skip, alias, emit with 0/1/2 renamed arguments, output); the 51 arms of the loop body are verified in 13 path-partitioned runs.',
     'assumptions': ['ssa_strict(parent tape) and choice_count == #choice clauses (SsaTape::new contract, bounded leg of C01)',
                     'the trace hypothesis tp (a decided choice selects an operand whose value equals the clause value bit for bit) is proved per clause by Kani and enumerated per tape by trace_vm/jit_trace; known findings: signed zero into Mix/Rand and NaN corners dropped by interval mul make an interval trace invalid at some points (known_findings.json)'],
-    'cex': ['simplify_sem'],
+    'cex': ['simplify_sem', 'alloc_cex'],
 }
 del NOT_APPLICABLE['C04']
 
@@ -207,11 +207,11 @@ PLAN['C10'] = {
     'level': 'proof',
     'technique': 'contract-based deductive verification (Verus): RegisterAllocator::reset establishes exactly the abstract view of new (`fresh`), simplify\'s contract is independent of the previous workspace/tape contents, the allocator theorem holds from arbitrary initial slot contents; bounded native contract runner for evaluator/storage reuse',
     'level_text': 'Proved unbounded: reset(size, tape) yields the same complete abstract view as new(size) whatever the allocator held before (allocations, registers, LRU order, spare lists, empty tape, slot_count 0); VmWorkspace::reset likewise; simplify\'s proved postconditions mention neither old(workspace) nor the recycled tape; stale register/memory contents are unobservable because the C01 theorem is quantified over all initial slot contents. Evaluator objects, JIT Mmap reuse and Function::recycle are bounded stand-ins (all ordered pairs of 12 functions x 3 backends x 4 evaluator kinds).',
-    'level_note': 'Trusted: Verus+Z3; assume_specification for slice::fill and mem::take; vstd specs of Vec::resize/clear. Proved in unit vm: TracingVmEval::resize_slots and BulkVmEval::resize_slots give slots/outputs/trace exactly the shape of the new tape whatever the evaluator held before, the trace is cleared to Unknown, and the results of the four VM eval functions are functions of the tape, the inputs and the (arbitrary) initial slot contents only. Bounded only: JIT storage growth, RenderHandle.',
-    'legs': [leg_verus('alloc'), leg_verus('simplify'), leg_verus('vm'), leg_bounded('reuse')],
+    'level_note': 'Trusted: Verus+Z3; assume_specification for slice::fill and mem::take; vstd specs of Vec::resize/clear. Proved in unit vm: TracingVmEval::resize_slots and BulkVmEval::resize_slots give slots/outputs/trace exactly the shape of the new tape whatever the evaluator held before, the trace is cleared to Unknown, and the results of the four VM eval functions are functions of the tape, the inputs and the (arbitrary) initial slot contents only. Proved in unit shape: the Shape-level wrappers ShapeTracingEval::eval_raw and ShapeBulkEval::eval_raw rebuild their argument vector / argument matrix (exactly max(#variables,1) rows of exactly n samples) from the current tape and inputs whatever the wrapper object held before. Bounded only: JIT storage growth, RenderHandle (contract render_handle: cached simplification keyed by trace, recycle into shared pools).',
+    'legs': [leg_verus('alloc'), leg_verus('simplify'), leg_verus('vm'), leg_verus('shape'), leg_bounded('reuse'), leg_bounded('shape_reuse'), leg_bounded('render_handle')],
     'explanation': 'reset == new on the view is the postcondition `fresh(size)` shared by both functions; see units/alloc/spec.py',
     'assumptions': ['JIT evaluator-object reuse and Function::recycle are enumerated, not proved'],
-    'cex': ['reuse'],
+    'cex': ['reuse', 'shape_reuse'],
 }
 del NOT_APPLICABLE['C10']
 
@@ -243,10 +243,10 @@ del NOT_APPLICABLE['C12']
 PLAN['C14'] = {
     'level': 'other',
     'technique': 'contract-based deductive verification (Verus) of the Shape-level tracing evaluator wrapper of shape/mod.rs on its real text, generic over the wrapped evaluator, the coordinate type and the variable-value type; bounded native contract runner over permutations of variables, supply orders and transforms on both back ends',
-    'level_text': 'Partial (binding clause; the tracing wrappers fully, the many-point/gradient wrapper for the axes and for totality). Proved for every evaluator E: TracingEvaluator, every tape whose variable map is well-formed, all coordinates, every optional transform and every set of supplied variable values: ShapeTracingEval::eval_raw calls the wrapped evaluator on an argument vector in which, for every entry (var, index) of the tape\'s variable map, slot index holds the value of var - the (converted, then transformed) x, y or z for the axes, the converted supplied value for Var::V(i) - independently of the order in which the map enumerates its entries and of anything else in the supplied set (extra variables are never read); the result is the wrapped evaluator\'s first output on that vector; a variable of the map that is not supplied yields the MissingVar error and nothing else is an error (the inner argument error is proved unreachable); the four public wrappers eval / eval_with_transform / eval_with_vars / eval_with_transform_and_vars are eval_raw with the corresponding arguments.  That simplification keeps the variable numbering is proved under C04 (simplify ensures r.vars == self.vars).  Also proved (generic over E: BulkEvaluator and over the closure that fills the rows of free variables): ShapeBulkEval::eval_raw / eval / eval_with_transform return Err for x, y, z of different lengths, otherwise shape the argument matrix as max(#variables, 1) rows of exactly n samples whatever the evaluator object held before, call the closure exactly once per free variable of the map with that variable\'s own row and index, write the (transformed) positions into the rows of the axes at the map\'s indices for every sample, return n samples which are the wrapped evaluator\'s first output row on that matrix, and cannot panic (both `unreachable!()` arms and every index are obligations).  NOT covered by proof: what the row-filling closures var_value / var_array write (closures returned as `impl Fn`; bounded contract shape_bind and total part (d)), VarMap index assignment itself (HashMap: stub whose well-formedness is assumed), Transformable for f32/Interval/Grad (nalgebra), the solver/GPU/mesher call sites.',
-    'level_note': 'Level other: the binding mechanism of the tracing wrappers is proved generically; the other evaluator kinds and the construction of the variable map are outside the technique (closures over &mut slices, HashMap entry API, nalgebra) and are only exercised by bounded contracts. Trusted: Verus+Z3; stubs VarMap (entries/wf/len/iter_vec), ShapeVars (finite map), Matrix4 (opaque); the trait contracts of TracingEvaluator::eval (satisfied by the VM evaluators: unit vm) and Transformable::transform; extractor rules R-iter, R-alias, R-derive-from, R-spec-in-trait.',
-    'legs': [leg_verus('shape'), leg_bounded('shape_bind')],
-    'cex': ['shape_bind'],
+    'level_text': 'Partial (binding clause; the tracing wrappers fully, the many-point/gradient wrapper for the axes and for totality). Proved for every evaluator E: TracingEvaluator, every tape whose variable map is well-formed, all coordinates, every optional transform and every set of supplied variable values: ShapeTracingEval::eval_raw calls the wrapped evaluator on an argument vector in which, for every entry (var, index) of the tape\'s variable map, slot index holds the value of var - the (converted, then transformed) x, y or z for the axes, the converted supplied value for Var::V(i) - independently of the order in which the map enumerates its entries and of anything else in the supplied set (extra variables are never read); the result is the wrapped evaluator\'s first output on that vector; a variable of the map that is not supplied yields the MissingVar error and nothing else is an error (the inner argument error is proved unreachable); the four public wrappers eval / eval_with_transform / eval_with_vars / eval_with_transform_and_vars are eval_raw with the corresponding arguments.  That simplification keeps the variable numbering is proved under C04 (simplify ensures r.vars == self.vars).  Also proved (generic over E: BulkEvaluator and over the closure that fills the rows of free variables): ShapeBulkEval::eval_raw / eval / eval_with_transform return Err for x, y, z of different lengths, otherwise shape the argument matrix as max(#variables, 1) rows of exactly n samples whatever the evaluator object held before, call the closure exactly once per free variable of the map with that variable\'s own row and index, write the (transformed) positions into the rows of the axes at the map\'s indices for every sample, return n samples which are the wrapped evaluator\'s first output row on that matrix, and cannot panic (both `unreachable!()` arms and every index are obligations).  Also proved: <Interval as Transformable>::transform and <Grad as Transformable>::transform return (h0/h3, h1/h3, h2/h3) with h_i = x*M[i][0] + y*M[i][1] + z*M[i][2] + from(M[i][3]) in the type\'s own arithmetic, i.e. the projective image M·(x,y,z,1) divided by its homogeneous coordinate, for every matrix (no affine shortcut).  NOT covered by proof: what the row-filling closures var_value / var_array write (closures returned as `impl Fn`; bounded contract shape_bind and total part (d)), VarMap index assignment itself (HashMap: stub whose well-formedness is assumed), Transformable for f32 (nalgebra transform_point; bounded contract shape_transform compares all four evaluator kinds on both back ends with an f64 reference of the projective map, gradients against central differences), the Jacobian pass of the solver Solver::get_jacobian and Solver::new / solve (enumerate over iter_mut, nalgebra DMatrix/SVD, iterator chains; bounded contract solver_bind: triangular linear systems whose fixed and free parameters sit in different slots of different equations), the GPU/mesher call sites.  Proved in unit solver (real text of fidget-solver/src/lib.rs, std HashMap through the HashMap model of vstd): Solver::get_err calls the point evaluator, for every equation, on an argument vector that binds by identity every parameter occurring in the variable map of that equation (the fixed value, or cur[gi] - delta[gi] with gi = grad_index[v]), although one array is shared by all equations and each tape numbers its variables differently; the result is the sum of the squared first outputs; neither unwrap nor any index can panic.',
+    'level_note': 'Level other: the binding mechanism of the tracing wrappers is proved generically; the other evaluator kinds and the construction of the variable map are outside the technique (closures over &mut slices, HashMap entry API, nalgebra) and are only exercised by bounded contracts. Trusted: Verus+Z3; stubs VarMap (entries/wf/len/iter_vec), ShapeVars (finite map), Matrix4 (opaque, entries m(i,j), row(i) as four entries), Interval/Grad operators +, /, * f32, From<f32> with uninterpreted meanings (under contract in units interval/grad); the trait contracts of TracingEvaluator::eval (satisfied by the VM evaluators: unit vm) and Transformable::transform; extractor rules R-iter, R-alias, R-derive-from, R-spec-in-trait, R-arraymap, R-intoiter, R-continue, R-hashindex, R-compound; unit solver additionally assumes obeys_key_model::<Var>() (the derived Hash/Eq of Var are consistent), the VarMap::get stub, trait Function reduced to two associated types, and as preconditions what Solver::new establishes (well-formed variable maps that fit the shared array, grad_index numbering the free parameters below cur.len()).',
+    'legs': [leg_verus('shape'), leg_verus('solver'), leg_bounded('shape_bind'), leg_bounded('shape_transform'), leg_bounded('solver_bind')],
+    'cex': ['shape_bind', 'shape_transform'],
     'explanation': 'bound(s, map, x, y, z, vars): s[index] == bind(var) for every entry of the map; the loop invariant carries it for the entries visited so far (distinct indices keep earlier slots intact) together with "no visited free variable is missing".',
     'assumptions': ['VarMap::wf (every variable once, indices distinct and below len): established by VarMap::insert (HashMap; not under contract; bounded contract flatten compares whole pipelines)',
                     'TracingEvaluator::eval contract: Err iff fewer arguments than variables; outputs = out_spec(tape, arguments), one per tape output (proved for the VM evaluators in unit vm, bounded for the JIT)',
